@@ -5,11 +5,12 @@ func init() {
 		ID:         "C09",
 		Level:      "other",
 		Technique:  "CFG dominance of unknown-field sinks by the DiscardUnknown test + idiom conformance of the unknown path (static)",
-		Explain:    "Decides structural necessary conditions of C09 on every binary decoder: (1) every store into unknown-field storage made while decoding is dominated by the false edge of DiscardUnknown (sinks are discovered by type, not listed); (2) in each tag loop the unknown path appends to the existing unknown bytes the tag of the decoded (num, wtyp) followed by exactly the bytes ConsumeFieldValue measured; (3) nested decode calls receive the caller's options; (4) the lazy decoder's field index (which decides which bytes of the retained buffer belong to which lazy field, and therefore what is re-emitted in place) tracks the position and the last field number on every iteration, for lazy and non-lazy fields alike.",
+		Explain:    "Decides structural necessary conditions of C09 on every binary decoder: (1) every store into unknown-field storage made while decoding is dominated by the false edge of DiscardUnknown (sinks are discovered by type, not listed); (2) in each tag loop the unknown path appends to the existing unknown bytes the tag of the decoded (num, wtyp) followed by exactly the bytes ConsumeFieldValue measured; (3) nested decode calls receive the caller's options; (4) the lazy decoder's field index (which decides which bytes of the retained buffer belong to which lazy field, and therefore what is re-emitted in place) tracks the position and the last field number on every iteration, for lazy and non-lazy fields alike. Also: the options rebuilt for messages without a MessageInfo (impl.marshalOptions.Options / unmarshalOptions.Options) carry every option of the proto package from the flag of the same name (DiscardUnknown reaches legacy and dynamic children).",
 		NotCovered: "schema-evolution equivalence and re-emission on Marshal for concrete messages; unknown handling inside user-provided Methods.",
 		Quick:      all("./proto", "./internal/impl"),
 		Thorough:   []ConfigLoad{{"default", []string{"./..."}}, {"legacy", []string{"./proto", "./internal/impl"}}},
 		Run: func(c *Ctx) {
+			c.ruleOptionsForward("R-OPTIONS-FORWARD")
 			c.ruleLazyFlagGate("R-LAZY-FLAG-GATE")
 			c.ruleLazyIndex("R-LAZY-INDEX")
 			c.ruleUnknownGuard("R-UNKNOWN-GUARD", 5)
